@@ -1816,6 +1816,8 @@ class C15(Prop):
             "toggles_anywhere": rng.random() < 0.3,
             "max_depth": rng.randint(1, 6),
             "max_nodes": rng.randint(3, 30),
+            # constant=True/False forced on operations: constant tensors that own a recorded graph
+            "const_flags": rng.random() < 0.4,
         }
         # interleavings: scopes held open outside the call stack (generator suspended inside a
         # with-block, ExitStack, manual __enter__) and left in any order relative to scopes of the
@@ -1865,6 +1867,9 @@ class C15(Prop):
                        ("wrap", 0.5), ("drop_t", 0.7), ("fail", 0.7), ("misc", 0.7), ("null_grad", 0.2)])
         if k == "backward" and not g.tracking and rng.random() < 0.5:
             hs = g.float_tensors()
+            cs = [h for h in hs if g.t[h].const]
+            if cs and rng.random() < 0.5:
+                hs = cs  # (a constant tensor that still has a graph: backward must not even clear it)
             if hs:
                 g.emit({"k": "backward", "tgt": rng.choice(hs)})  # must do nothing
             return
